@@ -14,10 +14,21 @@ way the real symbol table does for this fragment:
   function is looked up among the globals visible where the function is written; a name being
   defined (`let x = … x …`) reads its slot before the first store — such programs are *outside*
   the fragment (the VM leaves whatever was on the stack there);
-* function definitions are recognised as top-level statements only (`fn f(…) {…}`,
-  `let f = fn(…) {…};`, `f = fn(…) {…};`); a function whose last statement is a block is
-  outside the fragment (the real compiler looks at the last emitted instruction, `tailP` at the
-  last statement).
+* a name bound neither in the function nor among its captured names is looked up in the
+  function that encloses it (`SymbolTable::resolve` → `outer.resolve`): a global is used as it is;
+  anything else — a slot, a captured name or the own name of the enclosing function — becomes a
+  NEW captured name of this function (`define_free`: the next free index, visible in the whole
+  function from then on, hidden by later local bindings of the same name) and, transitively, of
+  every function in between: the capture chain.  The free indices of a function are thus the
+  order of FIRST REFERENCE in compile order (the right-hand side of an assignment before its
+  target, the right operand of `<` / `<=` before the left one, a nested function literal where
+  it is written) — this is why the recogniser threads its state through the tree in that order;
+* a function literal anywhere in an expression becomes `FExpr.mkclos` with its function constant
+  (code bytes and line table computed by `fnTop` at the pool index where its body's constants
+  start), `fn g(…) {…}` inside a function or a block is `let g = fn g(…) {…}`; the three top-level
+  forms `fn f(…) {…}`, `let f = fn(…) {…};`, `f = fn(…) {…};` stay `FTop.fnDef` / `fnSet`; a
+  function whose last statement is a block is outside the fragment (the real compiler looks at
+  the last emitted instruction, `tailP` at the last statement).
 
 `lines…` give the line the real compiler records for every instruction (the `emit` call sites).
 -/
@@ -30,218 +41,106 @@ inductive LBind where
   | poison
 deriving Repr
 
-structure Scope where
-  globals : Vis
-  infn : Bool
+/-- a function being recognised: its visible local bindings (innermost first; the own name at
+the bottom), its captured names in the order of their free indices with where each comes from
+in the enclosing function, the number of slots defined so far -/
+structure FScope where
   locals : List (String × LBind)
+  frees : List (String × Cap)
+  nl : Nat
 deriving Repr
 
 inductive Res where
   | g (i : Nat)
   | l (i : Nat)
   | self
+  | f (i : Nat)
 
-def Scope.resolve (sc : Scope) (name : String) : Option Res :=
-  match (if sc.infn then sc.locals.find? (·.1 == name) else none) with
-  | some (_, .slot i) => some (.l i)
-  | some (_, .self) => some .self
-  | some (_, .poison) => none
-  | none => (globalIndex sc.globals name).map .g
+def Res.cap : Res → Cap
+  | .l i => .loc i
+  | .f j => .free j
+  | _ => .self
+
+def freeIndex (name : String) : List (String × Cap) → Nat → Option Nat
+  | [], _ => none
+  | (n, _) :: rest, j => if n == name then some j else freeIndex name rest (j + 1)
+
+/-- `SymbolTable::resolve` through the chain of enclosing functions (innermost first), with the
+globals `vis` at the end; the scopes come back with the captured names this resolution defined -/
+def resolveF : List FScope → Vis → String → Option (Res × List FScope)
+  | [], vis, name => (globalIndex vis name).map (fun i => (.g i, []))
+  | f :: outer, vis, name =>
+    match f.locals.find? (·.1 == name) with
+    | some (_, .slot i) => some (.l i, f :: outer)
+    | some (_, .self) => some (.self, f :: outer)
+    | some (_, .poison) => none
+    | none =>
+      match freeIndex name f.frees 0 with
+      | some j => some (.f j, f :: outer)
+      | none =>
+        match resolveF outer vis name with
+        | some (.g i, outer') => some (.g i, f :: outer')
+        | some (r, outer') => some (.f f.frees.length, { f with frees := f.frees ++ [(name, r.cap)] } :: outer')
+        | none => none
+
+/-- the state of the recogniser: global slots defined so far, the visible globals, the functions
+being recognised (innermost first; `[]`: the top level) -/
+structure RS where
+  ng : Nat
+  vis : Vis
+  fs : List FScope
+deriving Repr
+
+/-- the end of a block: its bindings end; slots, captured names stay -/
+def RS.leave (before after : RS) : RS :=
+  { after with vis := before.vis,
+               fs := match before.fs, after.fs with
+                     | o :: _, n :: rest => { n with locals := o.locals } :: rest
+                     | _, fs => fs }
+
+def RS.infn (rs : RS) : Bool := !rs.fs.isEmpty
+
+/-- a new binding `name`: the next local slot inside a function, else the next global slot -/
+def RS.bind (rs : RS) (name : String) (b : LBind) : RS :=
+  match rs.fs with
+  | f :: outer => { rs with fs := { f with locals := (name, b) :: f.locals } :: outer }
+  | [] => rs
+
+def RS.nl (rs : RS) : Nat :=
+  match rs.fs with
+  | f :: _ => f.nl
+  | [] => 0
+
+def RS.defLocal (rs : RS) (name : String) : RS :=
+  match rs.fs with
+  | f :: outer => { rs with fs := { f with locals := (name, .slot f.nl) :: f.locals, nl := f.nl + 1 } :: outer }
+  | [] => rs
+
+def RS.defGlobal (rs : RS) (name : String) : RS :=
+  { rs with ng := rs.ng + 1, vis := (name, rs.ng) :: rs.vis }
 
 def isFnLit : Expr → Bool
   | .fn .. => true
   | _ => false
 
-mutual
-def ofFE (sc : Scope) : Nat → Expr → Option FExpr
-  | 0, _ => none
-  | fuel+1, e =>
-    match e with
-    | .int l v => some (.lit l (.int v))
-    | .float l f => some (.lit l (.float f))
-    | .str l s => some (.lit l (.str s))
-    | .char l c => some (.lit l (.char c))
-    | .byte l b => some (.lit l (.byte b))
-    | .bool l true => some (.tru l)
-    | .bool l false => some (.fls l)
-    | .null l => some (.null l)
-    | .unary l op a => do
-      let o ← unOfString op
-      let a' ← ofFE sc fuel a
-      pure (.un l o a')
-    | .binary l op a b => do
-      let a' ← ofFE sc fuel a
-      let b' ← ofFE sc fuel b
-      match op with
-      | "&&" => pure (.and l a' b')
-      | "||" => pure (.or l a' b')
-      | "<" => pure (.lt l a' b')
-      | "<=" => pure (.le l a' b')
-      | _ => do
-        let o ← operatorOfString op
-        pure (.bin l o a' b')
-    | .ifE l c (.mk _ ts) els => do
-      let c' ← ofFE sc fuel c
-      let t' ← (match ts with
-        | [] => some (FExpr.null l)
-        | [.exprS _ t] => ofFE sc fuel t
-        | _ => none)
-      let e' ← (match els with
-        | .none => some (FExpr.null l)
-        | .els (.mk _ []) => some (FExpr.null l)
-        | .els (.mk _ [.exprS _ x]) => ofFE sc fuel x
-        | .elif x => ofFE sc fuel x
-        | _ => none)
-      pure (.ite l c' t' e')
-    | .ident l name _ =>
-      (match sc.resolve name with
-       | some (.g i) => some (.gget l i)
-       | some (.l i) => some (.lget l i)
-       | some .self => some (.curr l)
-       | none => none)
-    | .assign _ (.ident l name _) rhs =>
-      -- assigning to the function's own name is a compile error ("Invalid lvalue")
-      (match sc.resolve name with
-       | some (.g i) => (ofFE sc fuel rhs).map (.gset l i)
-       | some (.l i) => (ofFE sc fuel rhs).map (.lset l i)
-       | _ => none)
-    | .matchE l scrut arms => do
-      let s' ← ofFE sc fuel scrut
-      let arms' ← ofFArms sc fuel arms
-      if kindsUniform arms then pure (.matchE l s' arms') else none
-    | .call l f args => do
-      let f' ← ofFE sc fuel f
-      let as' ← ofFArgs sc fuel args
-      pure (.call l f' as')
-    | _ => none
-def ofFArms (sc : Scope) : Nat → List Arm → Option FArms
-  | 0, _ => none
-  | _+1, [] => none
-  | fuel+1, .mk la pats (.mk _ body) :: rest => do
-    let b ← armBody (ofFE sc fuel) (FExpr.null la) body
-    match lastDefault? pats rest with
-    | some lp => pure (.last la lp b)
-    | none => do
-      let ps ← ofPatsL pats
-      let r ← ofFArms sc fuel rest
-      pure (.cons la ps b r)
-def ofFArgs (sc : Scope) : Nat → List Expr → Option FArgs
-  | 0, _ => none
-  | _+1, [] => some .nil
-  | fuel+1, a :: rest => do
-    let a' ← ofFE sc fuel a
-    let r ← ofFArgs sc fuel rest
-    pure (.cons a' r)
-end
-
-/-- the state of the statement recogniser: global / local slots defined so far, the scope -/
-structure RS where
-  ng : Nat
-  nl : Nat
-  sc : Scope
-deriving Repr
-
-/-- statements (of the top level: `sc.infn = false`; of a function body: `sc.infn = true`) -/
-def ofFS : Nat → RS → List (Option String) → List Stmt → Option (List FStmt × RS)
-  | 0, _, _, _ => none
-  | _+1, rs, _, [] => some ([], rs)
-  | fuel+1, rs, labels, s :: rest =>
-    match s with
-    | .letS l _ name e =>
-      if isFnLit e then none else
-      if rs.sc.infn then do
-        -- the name is defined before its initializer is compiled: a read of it there is outside the fragment
-        let e' ← ofFE { rs.sc with locals := (name, .poison) :: rs.sc.locals } fuel e
-        let (ss, rf) ← ofFS fuel { rs with nl := rs.nl + 1, sc := { rs.sc with locals := (name, .slot rs.nl) :: rs.sc.locals } } labels rest
-        pure (.letL l rs.nl e' :: ss, rf)
-      else do
-        let sc' := { rs.sc with globals := (name, rs.ng) :: rs.sc.globals }
-        let e' ← ofFE sc' fuel e
-        let (ss, rf) ← ofFS fuel { rs with ng := rs.ng + 1, sc := sc' } labels rest
-        pure (.letG l rs.ng e' :: ss, rf)
-    | .exprS ls e =>
-      match ofFE rs.sc fuel e with
-      | some e' => do
-        let (ss, rf) ← ofFS fuel rs labels rest
-        pure (.expr ls e' :: ss, rf)
-      | none =>
-        match e with
-        | .ifE l c (.mk _ ts) els => do
-          let c' ← ofFE rs.sc fuel c
-          let (t', r1) ← ofFS fuel rs labels ts
-          let rs1 : RS := { rs with ng := r1.ng, nl := r1.nl }
-          let (e', r2) ← (match els with
-            | .none => some ([], rs1)
-            | .els (.mk _ es) => ofFS fuel rs1 labels es
-            | .elif x => ofFS fuel rs1 labels [.exprS 0 x])
-          let (ss, rf) ← ofFS fuel { rs with ng := r2.ng, nl := r2.nl } labels rest
-          pure (.ifS ls l c' t' e' :: ss, rf)
-        | _ => none
-    | .block (.mk l body) => do
-      let (bs, r1) ← ofFS fuel rs labels body
-      let (ss, rf) ← ofFS fuel { rs with ng := r1.ng, nl := r1.nl } labels rest
-      pure (.block l bs :: ss, rf)
-    | .whileS l lbl cond (.mk _ body) => do
-      let c' ← ofFE rs.sc fuel cond
-      let (bs, r1) ← ofFS fuel rs (lbl :: labels) body
-      let (ss, rf) ← ofFS fuel { rs with ng := r1.ng, nl := r1.nl } labels rest
-      pure (.whileS l lbl c' bs :: ss, rf)
-    | .loop l lbl (.mk _ body) => do
-      let (bs, r1) ← ofFS fuel rs (lbl :: labels) body
-      let (ss, rf) ← ofFS fuel { rs with ng := r1.ng, nl := r1.nl } labels rest
-      pure (.loopS l lbl bs :: ss, rf)
-    | .breakS l lbl =>
-      if labelOK labels lbl then do
-        let (ss, rf) ← ofFS fuel rs labels rest
-        pure (.breakS l lbl :: ss, rf)
-      else none
-    | .continueS l lbl =>
-      if labelOK labels lbl then do
-        let (ss, rf) ← ofFS fuel rs labels rest
-        pure (.continueS l lbl :: ss, rf)
-      else none
-    | .ret l eo =>
-      if rs.sc.infn then
-        (match eo with
-         | some e => do
-           let e' ← ofFE rs.sc fuel e
-           let (ss, rf) ← ofFS fuel rs labels rest
-           pure (.ret l e' :: ss, rf)
-         | none => do
-           let (ss, rf) ← ofFS fuel rs labels rest
-           pure (.retN l :: ss, rf))
-      else none
-    | _ => none
-
 def paramBinds : Nat → List String → List (String × LBind) → List (String × LBind)
   | _, [], acc => acc
   | i, p :: ps, acc => paramBinds (i + 1) ps ((p, .slot i) :: acc)
-
-def lastIsBlock : List FStmt → Bool
-  | [] => false
-  | [.block ..] => true
-  | [_] => false
-  | _ :: rest => lastIsBlock rest
-
-/-- a function literal written where the globals `vis` are visible -/
-def ofFnBody (fuel : Nat) (vis : Vis) (fname : String) (params : List String) (body : Block) (lf : Nat) : Option FDecl := do
-  let locals0 : List (String × LBind) := if fname == "" then [] else [(fname, .self)]
-  let rs : RS := ⟨0, params.length, ⟨vis, true, paramBinds 0 params locals0⟩⟩
-  let (ss, rf) ← ofFS fuel rs [] body.stmts
-  if lastIsBlock ss then none else pure ⟨params.length, rf.nl, ss, lf⟩
 
 /-! ## line tables -/
 
 mutual
 def linesE : FExpr → List Nat
-  | .lit l _ | .tru l | .fls l | .null l | .gget l _ | .lget l _ | .curr l => [l]
+  | .lit l _ | .tru l | .fls l | .null l | .gget l _ | .lget l _ | .curr l | .fget l _ => [l]
   | .un l _ e => linesE e ++ [l]
   | .bin l _ a b => linesE a ++ linesE b ++ [l]
   | .lt l a b | .le l a b => linesE b ++ linesE a ++ [l]
   | .and l a b => linesE a ++ [l, l] ++ linesE b
   | .or l a b => linesE a ++ [l, l, l] ++ linesE b
   | .ite l c t e => linesE c ++ [l] ++ linesE t ++ [l] ++ linesE e
-  | .gset l _ e | .lset l _ e => linesE e ++ [l]
+  | .gset l _ e | .lset l _ e | .fset l _ e => linesE e ++ [l]
+  -- the loads of the captured values and the `Closure` carry the line of the `fn` token
+  | .mkclos l _ _ _ _ _ caps => List.replicate caps.length l ++ [l]
   | .matchE l s arms => linesE s ++ linesArms l arms
   | .call l f args => linesE f ++ linesArgs args ++ [l]
 def linesArms (lm : Nat) : FArms → List Nat
@@ -290,10 +189,233 @@ def linesTops : List FTop → List Nat
   | [] => []
   | t :: rest => linesTop t ++ linesTops rest
 
+
 /-- the function constant the real compiler builds for `d` when its body's constants start at pool index `k` -/
 def fnTop (k : Nat) (d : FDecl) : List Nat × List Nat :=
   let code := compileFn k d
   (encode code, byteLines code (linesT d.line d.body))
+
+
+def lastIsBlock : List FStmt → Bool
+  | [] => false
+  | [.block ..] => true
+  | [_] => false
+  | _ :: rest => lastIsBlock rest
+
+mutual
+/-- an expression whose constants start at pool index `k`, in compile order -/
+def ofFE : Nat → Nat → RS → Expr → Option (FExpr × RS)
+  | 0, _, _, _ => none
+  | fuel+1, k, rs, e =>
+    match e with
+    | .int l v => some (.lit l (.int v), rs)
+    | .float l f => some (.lit l (.float f), rs)
+    | .str l s => some (.lit l (.str s), rs)
+    | .char l c => some (.lit l (.char c), rs)
+    | .byte l b => some (.lit l (.byte b), rs)
+    | .bool l true => some (.tru l, rs)
+    | .bool l false => some (.fls l, rs)
+    | .null l => some (.null l, rs)
+    | .unary l op a => do
+      let o ← unOfString op
+      let (a', r1) ← ofFE fuel k rs a
+      pure (.un l o a', r1)
+    | .binary l op a b =>
+      if op == "<" || op == "<=" then do
+        -- the right operand is compiled first
+        let (b', r1) ← ofFE fuel k rs b
+        let (a', r2) ← ofFE fuel (k + (constsE b').length) r1 a
+        pure (if op == "<" then .lt l a' b' else .le l a' b', r2)
+      else do
+        let (a', r1) ← ofFE fuel k rs a
+        let (b', r2) ← ofFE fuel (k + (constsE a').length) r1 b
+        match op with
+        | "&&" => pure (.and l a' b', r2)
+        | "||" => pure (.or l a' b', r2)
+        | _ => do
+          let o ← operatorOfString op
+          pure (.bin l o a' b', r2)
+    | .ifE l c (.mk _ ts) els => do
+      let (c', r0) ← ofFE fuel k rs c
+      let k1 := k + (constsE c').length
+      let (t', r1) ← (match ts with
+        | [] => some (FExpr.null l, r0)
+        | [.exprS _ t] => ofFE fuel k1 r0 t
+        | _ => none)
+      let k2 := k1 + (constsE t').length
+      let (e', r2) ← (match els with
+        | .none => some (FExpr.null l, r1)
+        | .els (.mk _ []) => some (FExpr.null l, r1)
+        | .els (.mk _ [.exprS _ x]) => ofFE fuel k2 r1 x
+        | .elif x => ofFE fuel k2 r1 x
+        | _ => none)
+      pure (.ite l c' t' e', r2)
+    | .ident l name _ =>
+      (match resolveF rs.fs rs.vis name with
+       | some (.g i, fs) => some (.gget l i, { rs with fs := fs })
+       | some (.l i, fs) => some (.lget l i, { rs with fs := fs })
+       | some (.self, fs) => some (.curr l, { rs with fs := fs })
+       | some (.f j, fs) => some (.fget l j, { rs with fs := fs })
+       | none => none)
+    | .assign _ (.ident l name _) rhs => do
+      -- the right-hand side is compiled before the target is resolved;
+      -- assigning to the function's own name is a compile error ("Invalid lvalue")
+      let (r', r1) ← ofFE fuel k rs rhs
+      match resolveF r1.fs r1.vis name with
+      | some (.g i, fs) => some (.gset l i r', { r1 with fs := fs })
+      | some (.l i, fs) => some (.lset l i r', { r1 with fs := fs })
+      | some (.f j, fs) => some (.fset l j r', { r1 with fs := fs })
+      | _ => none
+    | .matchE l scrut arms => do
+      let (s', r1) ← ofFE fuel k rs scrut
+      let (arms', r2) ← ofFArms fuel (k + (constsE s').length) r1 arms
+      if kindsUniform arms then pure (.matchE l s' arms', r2) else none
+    | .call l f args => do
+      let (f', r1) ← ofFE fuel k rs f
+      let (as', r2) ← ofFArgs fuel (k + (constsE f').length) r1 args
+      pure (.call l f' as', r2)
+    | .fn lf fname params body => ofFn fuel k rs fname params body lf
+    | _ => none
+termination_by structural fuel => fuel
+def ofFArms : Nat → Nat → RS → List Arm → Option (FArms × RS)
+  | 0, _, _, _ => none
+  | _+1, _, _, [] => none
+  | fuel+1, k, rs, .mk la pats (.mk _ body) :: rest =>
+    match lastDefault? pats rest with
+    | some lp => do
+      let (b, r1) ← (match body with
+        | [] => some (FExpr.null la, rs)
+        | [.exprS _ e] => ofFE fuel k rs e
+        | _ => none)
+      pure (.last la lp b, r1)
+    | none => do
+      let ps ← ofPatsL pats
+      let kb := k + (patsConsts (ps.map erasePat)).length
+      let (b, r1) ← (match body with
+        | [] => some (FExpr.null la, rs)
+        | [.exprS _ e] => ofFE fuel kb rs e
+        | _ => none)
+      let (r, r2) ← ofFArms fuel (kb + (constsE b).length) r1 rest
+      pure (.cons la ps b r, r2)
+termination_by structural fuel => fuel
+def ofFArgs : Nat → Nat → RS → List Expr → Option (FArgs × RS)
+  | 0, _, _, _ => none
+  | _+1, _, rs, [] => some (.nil, rs)
+  | fuel+1, k, rs, a :: rest => do
+    let (a', r1) ← ofFE fuel k rs a
+    let (r, r2) ← ofFArgs fuel (k + (constsE a').length) r1 rest
+    pure (.cons a' r, r2)
+termination_by structural fuel => fuel
+/-- a function literal written where `rs` holds (its body's constants start at `k`): a fresh
+scope — the own name, the parameters —, the body, then the captured names it ended up with -/
+def ofFn : Nat → Nat → RS → String → List String → Block → Nat → Option (FExpr × RS)
+  | 0, _, _, _, _, _, _ => none
+  | fuel+1, k, rs, fname, params, body, lf => do
+    let locals0 : List (String × LBind) := if fname == "" then [] else [(fname, .self)]
+    let sc : FScope := ⟨paramBinds 0 params locals0, [], params.length⟩
+    let (ss, r1) ← ofFS fuel k { rs with fs := sc :: rs.fs } [] body.stmts
+    match r1.fs with
+    | sc' :: outer =>
+      if lastIsBlock ss then none else
+      let d : FDecl := ⟨params.length, sc'.nl, ss, lf⟩
+      let (code, lines) := fnTop k d
+      some (.mkclos lf code lines d.np d.nl ss (sc'.frees.map (·.2)), { r1 with fs := outer, vis := rs.vis })
+    | [] => none
+termination_by structural fuel => fuel
+/-- statements (of the top level: `rs.fs = []`; of a function body otherwise) -/
+def ofFS : Nat → Nat → RS → List (Option String) → List Stmt → Option (List FStmt × RS)
+  | 0, _, _, _, _ => none
+  | _+1, _, rs, _, [] => some ([], rs)
+  | fuel+1, k, rs, labels, s :: rest =>
+    match s with
+    | .letS l _ name e =>
+      if rs.infn then do
+        -- the name is defined before its initializer is compiled: a read of it there is outside the fragment
+        let (e', r1) ← ofFE fuel k (rs.bind name .poison) e
+        let (ss, rf) ← ofFS fuel (k + (constsE e').length) ((rs.leave r1).defLocal name) labels rest
+        pure (.letL l rs.nl e' :: ss, rf)
+      else do
+        let (e', r1) ← ofFE fuel k (rs.defGlobal name) e
+        let (ss, rf) ← ofFS fuel (k + (constsE e').length) r1 labels rest
+        pure (.letG l rs.ng e' :: ss, rf)
+    | .fnS l _ name params body =>
+      -- `fn g(…) {…}`: the name is defined, then the literal (named `g`) is compiled, then `DefineLocal` / `DefineGlobal`
+      if rs.infn then do
+        let (e', r1) ← ofFn fuel k (rs.defLocal name) name params body l
+        let (ss, rf) ← ofFS fuel (k + (constsE e').length) r1 labels rest
+        pure (.letL l rs.nl e' :: ss, rf)
+      else do
+        let (e', r1) ← ofFn fuel k (rs.defGlobal name) name params body l
+        let (ss, rf) ← ofFS fuel (k + (constsE e').length) r1 labels rest
+        pure (.letG l rs.ng e' :: ss, rf)
+    | .exprS ls e =>
+      match ofFE fuel k rs e with
+      | some (e', r1) => do
+        let (ss, rf) ← ofFS fuel (k + (constsE e').length) r1 labels rest
+        pure (.expr ls e' :: ss, rf)
+      | none =>
+        match e with
+        | .ifE l c (.mk _ ts) els => do
+          let (c', r0) ← ofFE fuel k rs c
+          let k1 := k + (constsE c').length
+          let (t', r1) ← ofFS fuel k1 r0 labels ts
+          let rs1 := r0.leave r1
+          let k2 := k1 + (constsP t').length
+          let (e', r2) ← (match els with
+            | .none => some ([], rs1)
+            | .els (.mk _ es) => ofFS fuel k2 rs1 labels es
+            | .elif x => ofFS fuel k2 rs1 labels [.exprS 0 x])
+          let (ss, rf) ← ofFS fuel (k2 + (constsP e').length) (rs1.leave r2) labels rest
+          pure (.ifS ls l c' t' e' :: ss, rf)
+        | _ => none
+    | .block (.mk l body) => do
+      let (bs, r1) ← ofFS fuel k rs labels body
+      let (ss, rf) ← ofFS fuel (k + (constsP bs).length) (rs.leave r1) labels rest
+      pure (.block l bs :: ss, rf)
+    | .whileS l lbl cond (.mk _ body) => do
+      let (c', r0) ← ofFE fuel k rs cond
+      let (bs, r1) ← ofFS fuel (k + (constsE c').length) r0 (lbl :: labels) body
+      let (ss, rf) ← ofFS fuel (k + (constsE c').length + (constsP bs).length) (r0.leave r1) labels rest
+      pure (.whileS l lbl c' bs :: ss, rf)
+    | .loop l lbl (.mk _ body) => do
+      let (bs, r1) ← ofFS fuel k rs (lbl :: labels) body
+      let (ss, rf) ← ofFS fuel (k + (constsP bs).length) (rs.leave r1) labels rest
+      pure (.loopS l lbl bs :: ss, rf)
+    | .breakS l lbl =>
+      if labelOK labels lbl then do
+        let (ss, rf) ← ofFS fuel k rs labels rest
+        pure (.breakS l lbl :: ss, rf)
+      else none
+    | .continueS l lbl =>
+      if labelOK labels lbl then do
+        let (ss, rf) ← ofFS fuel k rs labels rest
+        pure (.continueS l lbl :: ss, rf)
+      else none
+    | .ret l eo =>
+      if rs.infn then
+        (match eo with
+         | some e => do
+           let (e', r1) ← ofFE fuel k rs e
+           let (ss, rf) ← ofFS fuel (k + (constsE e').length) r1 labels rest
+           pure (.ret l e' :: ss, rf)
+         | none => do
+           let (ss, rf) ← ofFS fuel k rs labels rest
+           pure (.retN l :: ss, rf))
+      else none
+    | _ => none
+termination_by structural fuel => fuel
+end
+
+/-- a function literal written at the top level where the globals `vis` are visible (its
+constants start at pool index `k`): the declaration, when it captures nothing -/
+def ofFnDecl (fuel k : Nat) (vis : Vis) (ng : Nat) (fname : String) (params : List String) (body : Block) (lf : Nat) : Option FDecl :=
+  match ofFn fuel k ⟨ng, vis, []⟩ fname params body lf with
+  | some (.mkclos l _ _ np nl ss [], _) => some ⟨np, nl, ss, l⟩
+  | _ => none
+
+/-- as `ofFnDecl`, the constants starting at 0 -/
+def ofFnBody (fuel : Nat) (vis : Vis) (fname : String) (params : List String) (body : Block) (lf : Nat) : Option FDecl :=
+  ofFnDecl (fuel + 1) 0 vis 0 fname params body lf
 
 /-- the top-level statements of a program; `k`: the constants in the pool so far -/
 def ofTops : Nat → RS → Nat → List Stmt → Option (List FTop × RS × Nat)
@@ -302,35 +424,35 @@ def ofTops : Nat → RS → Nat → List Stmt → Option (List FTop × RS × Nat
   | fuel+1, rs, k, s :: rest =>
     match s with
     | .fnS l _ name params body => do
-      let sc' := { rs.sc with globals := (name, rs.ng) :: rs.sc.globals }
-      let d ← ofFnBody fuel sc'.globals name params body l
+      let rs' := rs.defGlobal name
+      let d ← ofFnDecl fuel k rs'.vis rs'.ng name params body l
       let (code, lines) := fnTop k d
       let top := FTop.fnDef l rs.ng code lines d
-      let (ts, rf, kf) ← ofTops fuel { rs with ng := rs.ng + 1, sc := sc' } (k + (constsTop top).length) rest
+      let (ts, rf, kf) ← ofTops fuel rs' (k + (constsTop top).length) rest
       pure (top :: ts, rf, kf)
     | .letS l _ name (.fn lf fname params body) => do
-      let sc' := { rs.sc with globals := (name, rs.ng) :: rs.sc.globals }
-      let d ← ofFnBody fuel sc'.globals fname params body lf
+      let rs' := rs.defGlobal name
+      let d ← ofFnDecl fuel k rs'.vis rs'.ng fname params body lf
       let (code, lines) := fnTop k d
       let top := FTop.fnDef l rs.ng code lines d
-      let (ts, rf, kf) ← ofTops fuel { rs with ng := rs.ng + 1, sc := sc' } (k + (constsTop top).length) rest
+      let (ts, rf, kf) ← ofTops fuel rs' (k + (constsTop top).length) rest
       pure (top :: ts, rf, kf)
     | .exprS ls (.assign _ (.ident li name _) (.fn lf fname params body)) => do
-      let gi ← globalIndex rs.sc.globals name
-      let d ← ofFnBody fuel rs.sc.globals fname params body lf
+      let gi ← globalIndex rs.vis name
+      let d ← ofFnDecl fuel k rs.vis rs.ng fname params body lf
       let (code, lines) := fnTop k d
       let top := FTop.fnSet ls li gi code lines d
       let (ts, rf, kf) ← ofTops fuel rs (k + (constsTop top).length) rest
       pure (top :: ts, rf, kf)
     | s => do
-      let (ss, r1) ← ofFS fuel rs [] [s]
+      let (ss, r1) ← ofFS fuel k rs [] [s]
       match ss with
       | [s'] => do
         let (ts, rf, kf) ← ofTops fuel r1 (k + (constsS s').length) rest
         pure (.stmt s' :: ts, rf, kf)
       | _ => none
 
-/-- no two definitions have the same function constant (so that `phiT` gives each closure its own declaration) -/
+/-- no two function literals of the program have the same function constant (so that `phiT` gives each closure its own declaration) -/
 def fdsDistinct (T : List FTop) : Bool :=
   let fds := (declsT T).map (·.1)
   fds.length == fds.eraseDups.length
